@@ -19,7 +19,8 @@ B = h.bounds(
 NAMINGS = [("x",), ("x", "y"), ("x", "y", "error_y"), ("x", "y", "error_x"),
            ("x", "y", "error_x", "error_y"), ("x", "y", "z"),
            ("x", "y", "z", "error_z_low", "error_z_high"),
-           ("x", "y", "error_y_low", "error_y_high", "error_x"), ("E", "time", "error_E_low", "error_time")]
+           ("x", "y", "error_y_low", "error_y_high", "error_x"), ("E", "time", "error_E_low", "error_time"),
+           ("x2", "x", "error_x2", "error_x"), ("xy", "x", "error_xy_low", "error_x_low")]
 BOUNDS = dict(vars(B), namings=NAMINGS, meaning="histograms of 1..DIM dimensions with 1..NB bins per "
               "axis (non-uniform integer edges), contents = distinct integer tags chosen by a symbolic "
               "offset (0..2) and sign; target scale / event number: any non-zero symbolic integer; add "
@@ -252,7 +253,7 @@ def _graph_scale(naming, npts, old, s):
 
 def check_graph_scale(naming: int, npts: int, old: int, s: int) -> bool:
     """
-    pre: 0 <= naming <= 8
+    pre: 0 <= naming <= 10
     pre: 1 <= npts <= 3
     pre: -2 <= old <= 3
     pre: s != 0 and -4 <= s <= 7
@@ -264,7 +265,7 @@ def check_graph_scale(naming: int, npts: int, old: int, s: int) -> bool:
 
 def hunt_graph_scale(naming: int, npts: int, old: int, s: float) -> bool:
     """
-    pre: 0 <= naming <= 8
+    pre: 0 <= naming <= 10
     pre: 1 <= npts <= 2
     pre: -2 <= old <= 3
     pre: s != 0 and -1e9 < s < 1e9
@@ -406,8 +407,8 @@ CONDITIONS = [
          smoke=["check_hist_add(1, 2, 1, 1, 0, 1, False, 2, True)", "check_hist_add(2, 2, 2, 1, 0, 1, True, -1, False)"]),
     dict(fn="check_set_nevents", shards=(4, 9), budget=(80, 900),
          smoke=["check_set_nevents(2, 2, 2, 1, 1, 5, True)"]),
-    dict(fn="check_graph_scale", shards=(3, 9), budget=(80, 900),
-         smoke=["check_graph_scale(4, 2, 2, 5)", "check_graph_scale(7, 2, 3, -1)", "check_graph_scale(1, 2, -2, 4)"]),
+    dict(fn="check_graph_scale", shards=(4, 11), budget=(80, 900),
+         smoke=["check_graph_scale(4, 2, 2, 5)", "check_graph_scale(7, 2, 3, -1)", "check_graph_scale(1, 2, -2, 4)", "check_graph_scale(9, 2, 2, 6)"]),
     dict(fn="hunt_hist_scale", kind="bughunt", no_twin=True, budget=(40, 300),
          smoke=["hunt_hist_scale(2, 2, 2, 1, True, -3.5)"]),
     dict(fn="hunt_graph_scale", kind="bughunt", no_twin=True, budget=(40, 300),
